@@ -154,8 +154,15 @@ static int compare_prefix_noaccent(const char* key, const char* elm, int n) {
         if (*key == '\0') {
             break;
         }
-        if (i >= n && key[1] == '\0') {
-            break;
+        if (i >= n) {
+            /* the key ends here, possibly followed by accents only */
+            const char* rest = key + 1;
+            while (*rest < 0) { /* skip non-ASCII */
+                ++rest;
+            }
+            if (*rest == '\0') {
+                break;
+            }
         }
         if (*key != *elm) {
             break;
